@@ -1053,3 +1053,97 @@ example := trsv_spec_partial_lower_notrans true 2 2 (#[2, 1, 0, 4] : Array Rat) 
   (by decide) (by decide) (by decide)
 
 end Slu.Cblas
+
+namespace Slu.Cblas
+open Finset Slu.Kernels
+section trsvUN
+variable {K : Type} [Field K] [Inhabited K] [BEq K] [LawfulBEq K] [Conj K]
+
+omit [LawfulBEq K] in
+/-- the `uplo = U, trans = N` sweep (columns `n-1 .. 0`, inner `i = j-1 .. 0`) is the `uplo = L` sweep on
+the reversed indexing `i ↦ n-1-i` -/
+theorem trsv_upper_notrans_eq_sweep (nounit : Bool) (n lda : Nat) (a x : Array K) (incx : Int) :
+    trsv true Tr.N nounit n a lda x incx =
+      loop n (colStepLN n (fun i => spos n incx (n - 1 - i)) (fun i j => a[(n - 1 - i) + (n - 1 - j) * lda]!) nounit) x := by
+  unfold trsv
+  have h : (Tr.N == Tr.N) = true := rfl
+  simp only [h, if_true]
+  apply loop_congr
+  intro X jj hjj
+  unfold colStepLN
+  simp only []
+  split
+  · rfl
+  · apply loop_congr
+    intro Y ii hii
+    have e : n - 1 - jj - 1 - ii = n - 1 - (jj + 1 + ii) := by omega
+    simp only [e]
+
+theorem trsv_spec_partial_upper_notrans (nounit : Bool) (n lda : Nat) (a x : Array K) (incx : Int)
+    (hinc : incx ≠ 0) (hb : ∀ i, i < n → spos n incx i < x.size)
+    (hd : nounit = true → ∀ j, j < n → a[j + j * lda]! ≠ 0) :
+    (trsv true Tr.N nounit n a lda x incx).size = x.size ∧
+    (∀ i, i < n →
+      (∑ jj ∈ range (n - 1 - i), a[i + (n - 1 - jj) * lda]! * (trsv true Tr.N nounit n a lda x incx)[spos n incx (n - 1 - jj)]!) +
+        (if nounit then a[i + i * lda]! else 1) * (trsv true Tr.N nounit n a lda x incx)[spos n incx i]! =
+      x[spos n incx i]!) ∧
+    (∀ p, (∀ i, i < n → spos n incx i ≠ p) → (trsv true Tr.N nounit n a lda x incx)[p]! = x[p]!) := by
+  rw [trsv_upper_notrans_eq_sweep]
+  obtain ⟨h1, h2, _, h4⟩ := sweepLN_spec n (fun i => spos n incx (n - 1 - i)) (fun i j => a[(n - 1 - i) + (n - 1 - j) * lda]!) nounit x
+    (fun i j hi hj h => by have := spos_inj n incx hinc _ _ (by omega) (by omega) h; omega)
+    (fun i hi => hb _ (by omega)) n (le_refl _)
+  refine ⟨h1, ?_, ?_⟩
+  · intro i hi
+    have hi' : n - 1 - i < n := by omega
+    have hdi : (if nounit then a[(n - 1 - (n - 1 - i)) + (n - 1 - (n - 1 - i)) * lda]! else 1) ≠ (0 : K) := by
+      cases hnu : nounit
+      · simp
+      · have e : n - 1 - (n - 1 - i) = i := by omega
+        rw [e]; simpa using hd hnu i hi
+    have row := fwdSub_row (fun i j => a[(n - 1 - i) + (n - 1 - j) * lda]!)
+      (fun j => if nounit then a[(n - 1 - j) + (n - 1 - j) * lda]! else 1)
+      (fun i => x[spos n incx (n - 1 - i)]!) n (n - 1 - i) hi' hdi
+    have e : n - 1 - (n - 1 - i) = i := by omega
+    have g := h2 (n - 1 - i) hi'
+    simp only [e] at g row
+    rw [g, Finset.sum_congr rfl (fun jj hjj => by rw [h2 jj (by have := mem_range.mp hjj; omega)])]
+    exact row
+  · intro p hp
+    exact h4 p (fun i hi => hp _ (by omega))
+
+/-- **trsv, all twelve `uplo × trans × diag` combinations**: the size of the array and every position
+off the stride are unchanged; the strided entries solve `op(A) r = x` row by row — the row equations
+are `trsv_spec_partial` (U, T/C), `trsv_spec_partial_lower` (L, T/C),
+`trsv_spec_partial_lower_notrans` (L, N), `trsv_spec_partial_upper_notrans` (U, N), which together
+cover every branch of `[sdcz]trsv_`. -/
+theorem trsv_spec (upper : Bool) (tr : Tr) (nounit : Bool) (n lda : Nat) (a x : Array K) (incx : Int)
+    (hinc : incx ≠ 0) (hb : ∀ i, i < n → spos n incx i < x.size)
+    (hd : nounit = true → ∀ j, j < n → cj tr a[j + j * lda]! ≠ 0) :
+    (trsv upper tr nounit n a lda x incx).size = x.size ∧
+    (∀ p, (∀ i, i < n → spos n incx i ≠ p) → (trsv upper tr nounit n a lda x incx)[p]! = x[p]!) := by
+  by_cases htr : tr = Tr.N
+  · subst htr
+    have hd' : nounit = true → ∀ j, j < n → a[j + j * lda]! ≠ 0 := by
+      intro h j hj
+      have e : (Tr.N == Tr.C) = false := rfl
+      have := hd h j hj
+      simpa [cj, e] using this
+    cases upper
+    · exact ⟨(trsv_spec_partial_lower_notrans nounit n lda a x incx hinc hb hd').1,
+        (trsv_spec_partial_lower_notrans nounit n lda a x incx hinc hb hd').2.2⟩
+    · exact ⟨(trsv_spec_partial_upper_notrans nounit n lda a x incx hinc hb hd').1,
+        (trsv_spec_partial_upper_notrans nounit n lda a x incx hinc hb hd').2.2⟩
+  · cases upper
+    · exact ⟨(trsv_spec_partial_lower tr htr nounit n lda a x incx hinc hb hd).1,
+        (trsv_spec_partial_lower tr htr nounit n lda a x incx hinc hb hd).2.2⟩
+    · exact ⟨(trsv_spec_partial tr htr nounit n lda a x incx hinc hb hd).1,
+        (trsv_spec_partial tr htr nounit n lda a x incx hinc hb hd).2.2⟩
+
+end trsvUN
+
+/-- upper triangular `[[2,1],[0,4]]`, `A r = x`, `x = (4, 8)` -/
+example : trsv true Tr.N true 2 (#[2, 0, 1, 4] : Array Rat) 2 #[4, 8] 1 = #[1, 2] := by decide +kernel
+example := trsv_spec_partial_upper_notrans true 2 2 (#[2, 0, 1, 4] : Array Rat) #[4, 8] 1
+  (by decide) (by decide) (by decide)
+
+end Slu.Cblas
